@@ -269,6 +269,20 @@ func c17E2EFixed(c *Ctx) {
 		p.SampleType[0].Unit, p.SampleType[1].Unit, p.SampleType[2].Unit = "nanoseconds", "kB", "ms"
 		c17E2E(c, "e2e-scale", p, c17Flags{divide: dv}, []c17Req{fg("si=0"), fg("si=1"), fg("si=2"), fg("si=2&mean=t")})
 	}
+	// -trim_path (and the built-in /proc/self/cwd/ prefix) making the displayed file names of equal-named
+	// functions coincide
+	for _, tc := range [][]string{{"/build/a:/build/b", "/build/a/src/run.go", "/build/b/src/run.go", "src/run.go"},
+		{"", "/proc/self/cwd/src/run.go", "src/run.go", "/proc/self/cwd/./src/run.go"}, {"/src", "/src/x.go", "x.go", "/proc/self/cwd/x.go"}} {
+		p := &profile.Profile{SampleType: []*profile.ValueType{{Type: "cpu", Unit: "ms"}}}
+		for j, fl := range tc[1:] {
+			f := &profile.Function{ID: uint64(j + 1), Name: "run", SystemName: "run", Filename: fl}
+			l := &profile.Location{ID: uint64(j + 1), Line: []profile.Line{{Function: f, Line: 7}}}
+			p.Function, p.Location = append(p.Function, f), append(p.Location, l)
+			p.Sample = append(p.Sample, &profile.Sample{Location: []*profile.Location{l}, Value: []int64{int64(10 * (j + 1))}})
+		}
+		p.Sample = append(p.Sample, &profile.Sample{Location: append([]*profile.Location{}, p.Location...), Value: []int64{7}})
+		c17E2E(c, "e2e-trim-collide", p, c17Flags{trim: tc[0]}, []c17Req{fg(""), fg("g=files"), fg("g=lines"), fg("g=functions")})
+	}
 	// the other options: given on the command line, overridden (or not) in the URL
 	for _, fl := range []c17Flags{
 		{gran: "functions", noinl: true, cols: true, trim: "/src", divide: 2},
